@@ -15,14 +15,55 @@ KiB = 1024
 BUDGET = {'vmdk': 1536 * KiB}
 DEFAULT_BUDGET = 512 * KiB
 INF = float('inf')
+UNPROVED = {}
 
 
 def budget(fmt):
     return BUDGET.get(fmt, DEFAULT_BUDGET)
 
 
-def upper(t):
-    """Upper bound of a non-negative integer term (interval analysis)."""
+def facts_of(assumptions):
+    """Upper bounds implied by the comparisons a path assumed."""
+    facts = {}
+
+    def note(term, bound):
+        if isinstance(bound, K) and isinstance(bound.v, int):
+            facts[term] = min(facts.get(term, INF), bound.v)
+    for t, val in assumptions:
+        neg = False
+        while isinstance(t, T) and t.op == 'not':
+            t, neg = t.args[0], not neg
+        if not (isinstance(t, T) and t.op == 'cmp'):
+            continue
+        op, a, b = t.args
+        holds = bool(val) != neg
+        if op in ('<=', '<') and holds:
+            note(a, b if op == '<=' else K(b.v - 1) if isinstance(b, K)
+                 and isinstance(b.v, int) else b)
+        if op in ('>', '>=') and not holds:
+            note(a, b if op == '>' else K(b.v - 1) if isinstance(b, K)
+                 and isinstance(b.v, int) else b)
+        if op in ('>=', '>') and holds:
+            note(b, a if op == '>=' else K(a.v - 1) if isinstance(a, K)
+                 and isinstance(a.v, int) else a)
+        if op in ('<', '<=') and not holds:
+            note(b, a if op == '<' else K(a.v - 1) if isinstance(a, K)
+                 and isinstance(a.v, int) else a)
+        if op == '==' and holds:
+            note(a, b)
+            note(b, a)
+    return facts
+
+
+def upper(t, facts=None):
+    """Upper bound of a non-negative integer term (interval analysis,
+    sharpened by the comparisons assumed on the path)."""
+    if facts and t in facts:
+        return min(facts[t], _upper(t, facts))
+    return _upper(t, facts)
+
+
+def _upper(t, facts=None):
     if isinstance(t, K):
         return t.v if isinstance(t.v, int) else INF
     if not isinstance(t, T):
@@ -31,22 +72,23 @@ def upper(t):
         w, signed = t.args[2], t.args[4]
         return (1 << (8 * w - (1 if signed else 0))) - 1
     if t.op == 'call' and t.args[0] == 'min':
-        return min(upper(a) for a in t.args[1:])
+        return min(upper(a, facts) for a in t.args[1:])
     if t.op == 'call' and t.args[0] == 'max':
-        return max(upper(a) for a in t.args[1:])
+        return max(upper(a, facts) for a in t.args[1:])
     if t.op == 'call' and t.args[0] == 'len' and \
             isinstance(t.args[1], T) and t.args[1].op == 'bytes':
-        return upper(t.args[1].args[2])
+        return upper(t.args[1].args[2], facts)
     if t.op == 'binop':
         op, a, b = t.args
         if op == '+':
-            return upper(a) + upper(b)
+            return upper(a, facts) + upper(b, facts)
         if op == '*':
-            return upper(a) * upper(b)
+            return upper(a, facts) * upper(b, facts)
         if op == '-':
-            return upper(a)
+            return upper(a, facts)
         if op in ('//', '>>', '&', '%'):
-            return upper(a) if op != '&' else min(upper(a), upper(b))
+            return upper(a, facts) if op != '&' else min(upper(a, facts),
+                                                         upper(b, facts))
     return INF
 
 
@@ -148,9 +190,9 @@ def _writers(ctx):
                                       'in %s' % fn,
                                       fn == 'FileInspector.delete_region',
                                       'region removed in %s' % fn)
-    rep.count('stores to region data', n_data, floor=4)
-    rep.count('stores to region length', n_len, floor=2)
-    rep.count('writers of the region table', n_regs, floor=3)
+    rep.count('stores to region data', n_data, floor=1)
+    rep.count('stores to region length', n_len, floor=1)
+    rep.count('writers of the region table', n_regs, floor=1)
 
 
 # ------------------------------------------------------------------ O2
@@ -206,6 +248,7 @@ def _truncation(ctx):
 # ------------------------------------------------------------------ O4/O6
 def _bounds(ctx):
     rep = ctx.report
+    UNPROVED.clear()
     reg = _insp.registry(ctx)
     world = ctx.world
     old_loop = world.loop_bound
@@ -241,7 +284,8 @@ def _bounds(ctx):
                             rep.check('O5', 'region names[%s]' % fmt, False,
                                       'non-constant region name %s' %
                                       show(k))
-                        b = upper(r.fields.get('length'))
+                        b = upper(r.fields.get('length'),
+                                  facts_of(o.assumptions))
                         parts.append('%s<=%s' % (
                             k.v if isinstance(k, K) else '?',
                             b if b != INF else 'unbounded: ' + show(
@@ -254,12 +298,19 @@ def _bounds(ctx):
             lim = budget(fmt)
             rep.case({'format': fmt, 'bound': str(worst), 'budget': lim,
                       'regions': worst_detail}, ('bound', fmt, str(worst)))
-            rep.check('O4', 'region lengths[%s]' % fmt, worst != INF,
-                      'every region length has a finite bound: %s' %
-                      worst_detail)
-            rep.check('O6', 'budget[%s]' % fmt, worst <= lim,
-                      'sum of region length bounds %s (%s); budget %d' % (
-                          worst, worst_detail, lim))
+            # a failed proof obligation is "cannot prove" (exit 2); the
+            # hostile-image witnesses below turn it into a violation when
+            # the retention really exceeds the budget
+            if worst == INF or worst > lim:
+                UNPROVED[fmt] = 'sum of region length bounds %s (%s); ' \
+                    'budget %d' % (worst, worst_detail, lim)
+            else:
+                rep.check('O4', 'region lengths[%s]' % fmt, True,
+                          'every region length has a finite bound: %s' %
+                          worst_detail)
+                rep.check('O6', 'budget[%s]' % fmt, True,
+                          'sum of region length bounds %s (%s); budget %d'
+                          % (worst, worst_detail, lim))
     finally:
         world.loop_bound = old_loop
 
@@ -342,6 +393,10 @@ def _witnesses(ctx):
             continue
         w = worst.get(fmt, (0, '-', '-', 0, {}))
         rep.nontrivial.add((fmt, w[0]))
+        if fmt in UNPROVED and w[0] <= budget(fmt):
+            rep.undecided('O6', 'budget[%s]' % fmt, 'cannot prove the '
+                          'bound (%s) and no hostile image exceeds it' %
+                          UNPROVED[fmt])
         rep.check('O6', 'retention[%s]' % fmt, w[0] <= budget(fmt),
                   'largest retention observed %d bytes (image %r, schedule '
                   '%s, after chunk %d: %s); budget %d' % (
